@@ -44,7 +44,7 @@ Proof.
   - inversion H; subst. cbn [svc_groups fbtv_walk flat_map]. rewrite app_nil_r, orb_false_r. repeat split; try lia. unfold len; cbn; lia.
   - cbn [sumN] in HI. pose proof (svc_nattrs_pos s) as Hp.
     destruct (group_head c s index Hw Hn ltac:(lia)) as (G1 & G2 & G3).
-    cbn [svc_groups fbtv_walk]. unfold gfirst at 1 2, glast. cbn [fst snd]. rewrite G1, G3. cbv zeta in H.
+    cbn [svc_groups fbtv_walk]. unfold gfirst, glast. cbn [fst snd]. rewrite G1, G3. cbv zeta in H.
     rewrite (idx_ge_iff c lo index Hw Hn ltac:(lia)) in H.
     (* the next service *)
     assert (Hsk' : skipn (N.to_nat (index + svc_nattrs s)) (decl_attrs c) = flat_map svc_decl_attrs t).
@@ -78,8 +78,219 @@ Proof.
                    by (unfold len; cbn; lia).
                  rewrite (seg_put_append _ _ _ _ 1 Ep) by lia. rewrite <- !app_assoc. reflexivity.
               ** rewrite I2. unfold len. cbn [length]. lia.
-              ** rewrite I5. cbn. rewrite orb_true_r. destruct found; reflexivity.
            ++ apply IH in H; auto; try lia.
         -- apply IH in H; auto; try lia.
     + cbn [andb]. apply IH in H; auto; try lia.
+Qed.
+
+(* what a complete answer holds: the primary services in lo..hi whose uuid bytes are [value] *)
+Definition fbtv_wanted (lo hi : N) (value : list N) (g : N * N * service_decl) : bool :=
+  group_wanted lo hi g && bytes_eqb (uuid_bytes (s_uuid (snd g))) value.
+
+Lemma fbtv_cond lo hi value avail (g : N * N * service_decl) :
+  (lo <=? gfirst g) && (gfirst g <=? hi) && negb (s_secondary (snd g))
+  && bytes_eqb (uuid_bytes (s_uuid (snd g))) value && (4 <=? avail)
+  = fbtv_wanted lo hi value g && (4 <=? avail).
+Proof. reflexivity. Qed.
+
+Lemma fbtv_walk_blocked G lo hi value avail : avail < 4 -> fbtv_walk G lo hi value avail = [].
+Proof.
+  intros H. induction G as [|g t IH]; cbn [fbtv_walk]; [reflexivity|].
+  replace (4 <=? avail) with false by lia. rewrite andb_false_r. exact IH.
+Qed.
+
+Lemma fbtv_walk_prefix G lo hi value avail :
+  exists rest, filter (fbtv_wanted lo hi value) G = fbtv_walk G lo hi value avail ++ rest
+    /\ (4 <= avail -> fbtv_walk G lo hi value avail = [] -> filter (fbtv_wanted lo hi value) G = []).
+Proof.
+  revert avail; induction G as [|g t IH]; intros avail; cbn [fbtv_walk filter]; [exists []; split; auto|].
+  rewrite fbtv_cond. destruct (fbtv_wanted lo hi value g); cbn [andb].
+  - destruct (4 <=? avail) eqn:E.
+    + destruct (IH (avail - 4)) as [rest [H1 _]]. exists rest. split; [cbn [app]; f_equal; exact H1|discriminate].
+    + rewrite fbtv_walk_blocked by lia. eexists. split; [reflexivity|lia].
+  - apply IH.
+Qed.
+
+Lemma error_response_seg op code h buf out_size r :
+  5 <= out_size -> error_response op code h buf out_size = Some r ->
+  snd r = 5 /\ seg 0 5 (fst r) = 1 :: op :: le16 h ++ [code].
+Proof.
+  intros Ho. unfold error_response. replace (5 <=? out_size) with true by lia.
+  destruct (put buf 0 _) as [b'|] eqn:E; [|discriminate]. intros H. inversion H; subst r. cbn [fst snd].
+  pose proof (seg_put_self _ _ _ _ E) as Hs. split; auto.
+Qed.
+
+Definition fbtv_response (R : list (N * N * service_decl)) (lo out_size : N) (r : resp) : Prop :=
+  match R with
+  | [] => snd r = 5 /\ seg 0 5 (fst r) = 1 :: 6 :: le16 lo ++ [10]
+  | _ => snd r = 1 + (4 * len R) mod 256
+         /\ (4 * len R < 256 -> snd r <= out_size /\ snd r <= len (fst r) /\ seg 0 (snd r) (fst r) = 7 :: flat_map genc4 R)
+  end.
+
+(* The Find By Type Value response for <<Primary Service>>: determined by the walk over the declared services *)
+Theorem find_by_type_value_spec c st cid pdu lo hi value b out_size r :
+  wf c -> no_includes c ->
+  rd pdu 0 = Some 6 -> (len pdu = 9 \/ len pdu = 23) ->
+  rd16 pdu 1 = Some lo -> rd16 pdu 3 = Some hi -> rd16 pdu 5 = Some uuid_primary_service ->
+  slice pdu 7 (len pdu) = Some value ->
+  1 <= lo -> lo <= hi -> 23 <= out_size -> out_size <= len b ->
+  handle_find_by_type_value c st cid pdu b out_size = Some r ->
+  fbtv_response (fbtv_walk (groups c) lo hi value (out_size - 1)) lo out_size r.
+Proof.
+  intros Hw Hn Hop Hlen Hlo' Hhi' Hty Hsl Hlo Hhi Ho Hb H.
+  unfold handle_find_by_type_value, check_size_and_handle_range in H. rewrite Hop in H.
+  replace (negb (len pdu =? 9) && negb (len pdu =? 23)) with false in H by (destruct Hlen as [-> | ->]; reflexivity).
+  rewrite Hlo', Hhi' in H. replace ((lo =? 0) || (hi <? lo)) with false in H by lia.
+  destruct (fbtv_walk_prefix (groups c) lo hi value (out_size - 1)) as (rest & W1 & W2).
+  destruct (first_index_by_handle c lo =? invalid_index) eqn:Efi.
+  - destruct (error_response 6 err_attribute_not_found lo b out_size) as [r'|] eqn:Ee; [|discriminate].
+    inversion H; subst r'; clear H. apply error_response_seg in Ee; [|lia].
+    assert (HG : filter (fbtv_wanted lo hi value) (groups c) = []).
+    { apply filter_all_false. intros g Hg. unfold fbtv_wanted, group_wanted, in_range.
+      assert (Hin : In (gentry g) (table c)).
+      { assert (X : In (gentry g) (map gentry (groups c))) by (apply in_map; auto).
+        rewrite <- table_services in X by auto. apply filter_In in X. tauto. }
+      apply (in_map fst) in Hin. rewrite table_handles in Hin by auto. cbn [gentry fst] in Hin.
+      apply N.eqb_eq in Efi. rewrite first_index_by_handle_spec in Efi by auto.
+      assert (fst (fst g) < lo); [|lia].
+      destruct (In_nth _ _ 0 Hin) as [j [Hj1 Hj2]].
+      pose proof (first_ge_le_iff 0 (assign c) lo 0 j (assign_increasing c) Hj1) as X.
+      pose proof (assign_length c Hw Hn) as Hl. pose proof (wf_attr_bound c Hw) as Hbd.
+      rewrite Efi, N.eqb_refl, Hj2 in X. cbn [negb andb] in X.
+      assert (0 + N.of_nat (length (assign c)) < invalid_index) by (unfold invalid_index; lia). specialize (X H). lia. }
+    rewrite HG in W1. destruct (fbtv_walk (groups c) lo hi value (out_size - 1)); [|discriminate W1]. exact Ee.
+  - rewrite Hty, Hsl in H. change (negb (uuid_primary_service =? uuid_primary_service)) with false in H. cbv iota in H.
+    destruct (services_by_group c st cid (services c) 0 _ _ _ _ _ _ _) as [[[b1 cur] found]|] eqn:Es; [|discriminate].
+    apply sbg_walk in Es; auto; try lia.
+    cbn [N.to_nat skipn] in Es. fold (groups c) in Es. destruct Es as (S1 & S2 & S3 & S4 & S5).
+    cbn [orb] in S5.
+    destruct (fbtv_walk (groups c) lo hi value (out_size - 1)) as [|g R] eqn:Ew.
+    + subst found. apply error_response_seg in H; [|lia]. exact H.
+    + subst found. destruct (put b1 0 [7]) as [b2|] eqn:Ep; [|discriminate]. inversion H; subst r; clear H.
+      cbn [fbtv_response fst snd]. pose proof (put_length _ _ _ _ Ep) as Lp.
+      replace (cur - 1) with (4 * len (g :: R)) by lia. split; [lia|]. intros Hsm.
+      rewrite N.mod_small by lia. repeat split; try lia.
+      rewrite (seg_app 0 1) by lia. replace (4 * len (g :: R) + 1) with cur by lia.
+      rewrite (seg_put_other _ _ _ _ 1 cur Ep) by (unfold len; cbn; lia).
+      rewrite S1, seg_nil. cbn [app].
+      pose proof (seg_put_self _ _ _ _ Ep) as X. change (0 + len [7]) with 1 in X. rewrite X. reflexivity.
+Qed.
+
+(* ================================================================== in terms of the declared primary services *)
+Definition gtriple (g : N * N * service_decl) : N * N * uuid := (gfirst g, glast g, s_uuid (snd g)).
+
+Lemma primary_services_all c lo hi :
+  primary_services c None lo hi = map gtriple (filter (group_wanted lo hi) (groups c)).
+Proof.
+  unfold primary_services. f_equal. apply filter_ext_in'. intros g _. unfold group_wanted. cbn [uuid_wanted]. apply andb_true_r.
+Qed.
+
+(* the value of a Find By Type Value request names the uuid [uuid_of_bytes value] *)
+Lemma value_is_uuid u value :
+  uuid_ok u = true -> forallb byte_ok value = true ->
+  bytes_eqb (uuid_bytes u) value = uuid_eqb u (uuid_of_bytes value).
+Proof.
+  intros Hu Hv. destruct u as [v|bs]; cbn [uuid_ok] in Hu.
+  - destruct value as [|p [|q [|r t]]]; cbn [uuid_bytes bytes_eqb uuid_of_bytes uuid_eqb]; try reflexivity.
+    + rewrite andb_false_r. reflexivity.
+    + cbn [forallb] in Hv. unfold byte_ok, w16 in *. rewrite andb_true_r.
+      assert (Hd : v = 256 * (v / 256) + v mod 256) by (apply N.div_mod; lia).
+      assert (Hm : v mod 256 < 256) by (apply N.mod_lt; lia).
+      assert (Hq : v / 256 < 256) by (apply N.div_lt_upper_bound; lia).
+      rewrite (N.mod_small (v / 256)) by lia.
+      destruct (v =? p + 256 * q) eqn:E.
+      * apply N.eqb_eq in E. subst v.
+        assert (X1 : (p + 256 * q) mod 256 = p) by (symmetry; apply (N.mod_unique _ 256 q p); lia).
+        assert (X2 : (p + 256 * q) / 256 = q) by (symmetry; apply (N.div_unique _ 256 q p); lia).
+        rewrite X1, X2, !N.eqb_refl. reflexivity.
+      * apply N.eqb_neq in E. destruct (v mod 256 =? p) eqn:E1; [|reflexivity]. destruct (v / 256 =? q) eqn:E2; [|reflexivity].
+        exfalso. apply E. lia.
+    + rewrite !andb_false_r. reflexivity.
+  - apply andb_true_iff in Hu. destruct Hu as [Hl _]. apply Nat.eqb_eq in Hl.
+    destruct value as [|p [|q [|r t]]]; cbn [uuid_bytes uuid_of_bytes uuid_eqb]; try reflexivity.
+    do 3 (destruct bs as [|? bs]; [discriminate Hl|]). cbn [bytes_eqb]. rewrite !andb_false_r. reflexivity.
+Qed.
+
+Lemma services_uuid_ok c g : wf c -> In g (groups c) -> uuid_ok (s_uuid (snd g)) = true.
+Proof.
+  intros Hw Hg.
+  assert (Hu : forallb (fun s => uuid_ok (s_uuid s)) (services c) = true).
+  { unfold wf, wf_b in Hw. repeat (apply andb_true_iff in Hw; destruct Hw as [Hw ?]).
+    apply forallb_forall. intros s Hs.
+    match goal with X : forallb (svc_static_ok c) (services c) = true |- _ => rewrite forallb_forall in X; specialize (X s Hs) end.
+    unfold svc_static_ok in *. repeat (match goal with X : _ && _ = true |- _ => apply andb_true_iff in X; destruct X end). auto. }
+  rewrite forallb_forall in Hu. apply Hu. unfold groups in Hg.
+  clear -Hg. revert Hg. generalize (assign c). induction (services c) as [|s t IH]; intros hs Hg; [destruct Hg|].
+  cbn [svc_groups] in Hg. destruct Hg as [<-|Hg]; [left; reflexivity|right; eapply IH; eauto].
+Qed.
+
+Lemma primary_services_by_uuid c value lo hi :
+  wf c -> forallb byte_ok value = true ->
+  primary_services c (Some (uuid_of_bytes value)) lo hi = map gtriple (filter (fbtv_wanted lo hi value) (groups c)).
+Proof.
+  intros Hw Hv. unfold primary_services. f_equal. apply filter_ext_in'. intros g Hg.
+  unfold fbtv_wanted, group_wanted. cbn [uuid_wanted]. rewrite value_is_uuid; auto. eapply services_uuid_ok; eauto.
+Qed.
+
+(* a client discovering a primary service by its uuid *)
+Definition fbtv_responder (c : cfg) (out_size : N) (value : list N) : N -> N -> option (list N * N) :=
+  group_responder (fun lo hi => fbtv_walk (groups c) lo hi value (out_size - 1)).
+
+Theorem fbtv_discover_all c out_size value hi :
+  wf c -> no_includes c -> 23 <= out_size ->
+  forall lo, 1 <= lo ->
+    discover_all (S (length (groups c))) (fbtv_responder c out_size value) lo hi
+    = hrange (map gfirst (filter (fun g => negb (s_secondary (snd g)) && bytes_eqb (uuid_bytes (s_uuid (snd g))) value) (groups c))) lo hi.
+Proof.
+  intros Hw Hn Ho lo Hlo. unfold fbtv_responder. apply groups_discover_all; auto.
+  intros lo'. destruct (fbtv_walk_prefix (groups c) lo' hi value (out_size - 1)) as (rest & W1 & W2).
+  exists rest.
+  assert (E : filter (selected_range (fun g => negb (s_secondary (snd g)) && bytes_eqb (uuid_bytes (s_uuid (snd g))) value) lo' hi) (groups c)
+              = filter (fbtv_wanted lo' hi value) (groups c)).
+  { apply filter_ext_in'. intros g _. unfold selected_range, fbtv_wanted, group_wanted, gfirst. apply andb_assoc. }
+  rewrite E. split; [exact W1|apply W2; lia].
+Qed.
+
+(* ---- what is reported, in terms of the declared primary services *)
+Lemma rbg_reports_primary_services c lo hi out_size :
+  23 <= out_size ->
+  let W := walk_first (groups c) lo hi (out_size - 2) in
+  exists rest, primary_services c None lo hi = map gtriple W ++ rest
+               /\ (W = [] -> primary_services c None lo hi = [])
+               /\ (forall g, In g W -> s_secondary (snd g) = false /\ In g (groups c) /\ in_range lo hi (gfirst g) = true).
+Proof.
+  intros Ho W. destruct (walk_first_spec (groups c) lo hi (out_size - 2) ltac:(lia)) as (rest & W1 & W2 & _).
+  rewrite primary_services_all. exists (map gtriple rest). fold W in W1, W2. repeat split.
+  - rewrite W1, map_app. reflexivity.
+  - intros E. rewrite W2 by exact E. reflexivity.
+  - assert (X : In g (filter (group_wanted lo hi) (groups c))) by (rewrite W1; apply in_or_app; left; auto).
+    apply filter_In in X. destruct X as [_ X]. unfold group_wanted in X. apply andb_true_iff in X. destruct X as [_ X].
+    destruct (s_secondary (snd g)); [discriminate X|reflexivity].
+  - assert (X : In g (filter (group_wanted lo hi) (groups c))) by (rewrite W1; apply in_or_app; left; auto).
+    apply filter_In in X. tauto.
+  - assert (X : In g (filter (group_wanted lo hi) (groups c))) by (rewrite W1; apply in_or_app; left; auto).
+    apply filter_In in X. destruct X as [_ X]. unfold group_wanted in X. apply andb_true_iff in X. tauto.
+Qed.
+
+Lemma fbtv_reports_primary_services c lo hi value out_size :
+  wf c -> forallb byte_ok value = true -> 23 <= out_size ->
+  let W := fbtv_walk (groups c) lo hi value (out_size - 1) in
+  exists rest, primary_services c (Some (uuid_of_bytes value)) lo hi = map gtriple W ++ rest
+               /\ (W = [] -> primary_services c (Some (uuid_of_bytes value)) lo hi = [])
+               /\ (forall g, In g W -> s_secondary (snd g) = false /\ In g (groups c) /\ in_range lo hi (gfirst g) = true).
+Proof.
+  intros Hw Hv Ho W. destruct (fbtv_walk_prefix (groups c) lo hi value (out_size - 1)) as (rest & W1 & W2).
+  rewrite primary_services_by_uuid by auto. exists (map gtriple rest). fold W in W1, W2.
+  assert (Hin : forall g, In g W -> In g (groups c) /\ fbtv_wanted lo hi value g = true).
+  { intros g Hg. assert (X : In g (filter (fbtv_wanted lo hi value) (groups c))) by (rewrite W1; apply in_or_app; left; auto).
+    apply filter_In in X. exact X. }
+  repeat split.
+  - rewrite W1, map_app. reflexivity.
+  - intros E. rewrite W2 by (auto; lia). reflexivity.
+  - destruct (Hin g H) as [_ X]. unfold fbtv_wanted, group_wanted in X.
+    apply andb_true_iff in X. destruct X as [X _]. apply andb_true_iff in X. destruct X as [_ X].
+    destruct (s_secondary (snd g)); [discriminate X|reflexivity].
+  - apply (Hin g H).
+  - destruct (Hin g H) as [_ X]. unfold fbtv_wanted, group_wanted in X.
+    apply andb_true_iff in X. destruct X as [X _]. apply andb_true_iff in X. tauto.
 Qed.
